@@ -8,6 +8,7 @@ import DesyncModel.Tables.Pool
 import DesyncModel.Lemmas
 import DesyncModel.Setters
 import DesyncModel.Inv.PoolReach
+import DesyncModel.Inv.WatchReach
 
 namespace Desync.C17
 open Desync Gen
@@ -105,5 +106,15 @@ theorem C17_holds : C17_full :=
 example : ∃ s, ReachableB 2 s ∧ s.acts.length = 1 :=
   ⟨(invoke (initState 1 0 2) 0 none (.desync 0)).get!.1,
    ReachableB.step (.invoke 0 none (.desync 0)) (ReachableB.init 1 0 2 (by decide)) (by decide) (by decide), by decide⟩
+
+/-- **The threads vector is an exact account of the pool** (states reachable without a zero maximum): it lists no thread twice,
+every thread it lists is a live pool-thread activity whose channel is open (despawn closes the channel of exactly the threads
+it removes from the vector), and every pool thread is exactly one activity.  With `never_exceeds`: the number of live,
+reachable pool threads the scheduler owns is at most the maximum. -/
+theorem vector_threads_are_alive {s : State} (hr : ReachableNZ s) :
+    s.threadsVec.Nodup ∧ (∀ p, p ∈ s.threadsVec → ∃ w, s.po w = some p) ∧
+    (∀ p, p ∈ s.threadsVec → ∃ pt, s.pthreads[p]? = some pt ∧ pt.hungUp = false) ∧ (∀ a b p, s.po a = some p → s.po b = some p → a = b) :=
+  let h := watchInv_reachable hr
+  ⟨h.thr.nodup, h.thr.live, h.thr.hv, h.po.uniq⟩
 
 end Desync.C17
